@@ -117,7 +117,7 @@ func runWire(c *Ctx, w wireCase) {
 		c.Find(Finding{Kind: "corr", Class: "wire-setup", Case: key, Impl: "PLAY refused"})
 		return
 	}
-	if !ml.Eventually(10*time.Second, func() bool { return fx.Stream.ConsumerCount() == 1 }) {
+	if !ml.Eventually(60*time.Second, func() bool { return fx.Stream.ConsumerCount() == 1 }) {
 		fail("wire-not-attached", "no consumer attached after a successful PLAY", "one consumer")
 		return
 	}
@@ -153,12 +153,12 @@ func runWire(c *Ctx, w wireCase) {
 		fx.Stream.WriteRtpPacket(p)
 		subscribed := w.ach >= 0 || k < 2
 		if subscribed {
-			want = append(want, sent{k, data})
+			want = append(want, sent{k, append([]byte(nil), data...)}) // a private copy: the expectation must not alias the published buffer
 		}
 		if w.flavour == "udp" && subscribed {
 			// pace: read this datagram before publishing the next (no socket-buffer overflow)
 			buf := make([]byte, 4096)
-			udp[k].SetReadDeadline(time.Now().Add(10 * time.Second))
+			udp[k].SetReadDeadline(time.Now().Add(60 * time.Second))
 			n, _, e := udp[k].ReadFromUDP(buf)
 			if e != nil {
 				fail("wire-udp-missing", fmt.Sprintf("datagram %d for channel kind %d never arrived on the negotiated port", i, k), "one datagram = p.Data to the port negotiated for p.Channel")
@@ -207,12 +207,12 @@ func runWire(c *Ctx, w wireCase) {
 	// (generously) until everything published has arrived; frames always precede the response
 	// that flushed them.
 	got := early
-	deadline := time.Now().Add(20 * time.Second)
+	deadline := time.Now().Add(90 * time.Second)
 	for len(got) < len(want) && time.Now().Before(deadline) {
 		flushCS := req("OPTIONS", "*", "")
 		answered := false
 		for !answered {
-			it, ok := conn.TryNext(10 * time.Second)
+			it, ok := conn.TryNext(60 * time.Second)
 			if !ok || it.Kind == sl.KEOF {
 				deadline = time.Now()
 				break
@@ -283,5 +283,5 @@ func rawBytes(p *rtp.Packet) []byte {
 	n := int(unsafe.Sizeof(*p))
 	b := make([]byte, n)
 	copy(b, (*[1 << 12]byte)(unsafe.Pointer(p))[:n:n])
-	return b
+	return append(b, p.Data...) // the struct (every field, slice headers included) and the bytes it points to
 }
